@@ -23,6 +23,9 @@ STR_METHODS = frozenset("startswith endswith isdigit isidentifier isalpha isalnu
                         "rpartition find index count isspace isnumeric isdecimal removeprefix removesuffix".split())
 
 
+BUILTIN_CALLS = frozenset(dir(__import__("builtins")))
+
+
 def expand_entries(ix, entries):
     out = []
     for e in entries:
@@ -60,7 +63,13 @@ def reachable(ix, entries):
                     if r in ix.funcs:
                         todo.append(ix.funcs[r].qual)
                     elif r in ix.classes:
-                        todo += [q2 for q2, g in ix.funcs.items() if g.cls == r and q2 == g.qual]
+                        # naming a class reaches its construction; its other methods are reached where their names are used
+                        todo += [q2 for q2, g in ix.funcs.items() if g.cls == r and q2 == g.qual and g.name in ("__init__", "__new__", "__post_init__", "__init_subclass__")]
+                    elif isinstance(getattr(n, "_parent_call", None), ast.Call):
+                        pass
+                elif isinstance(n, ast.Call) and isinstance(n.func, ast.Name) and ix.resolve_name(f.mod, n.func.id) is None and n.func.id not in BUILTIN_CALLS:
+                    # a call through a local name (`bb(**kwargs)`): any callable object of the package may be behind it
+                    todo += by_method.get("__call__", [])
                 elif isinstance(n, ast.Attribute) and isinstance(n.ctx, ast.Load):
                     todo += by_method.get(n.attr, [])
                     if isinstance(n.value, ast.Name):
